@@ -90,6 +90,11 @@ func ReadBlocks(b []byte) ([]byte, BlockStats, error) {
 			if dl > blockLen-got {
 				return nil, st, fmt.Errorf("chunk declares %d bytes, only %d left in block", dl, blockLen-got)
 			}
+			if dl > 64<<20 {
+				// (streams declaring blocks of this size are excluded by every caller through
+				// MaxDeclaredBlock; do not allocate gigabytes to find out)
+				return nil, st, fmt.Errorf("chunk declares %d bytes: more than this reader allocates", dl)
+			}
 			plain, err := snappy.Decode(nil, b[:cl])
 			if err != nil {
 				return nil, st, fmt.Errorf("chunk: %w", err)
